@@ -503,6 +503,75 @@ Definition parse_imax_gen (empty : bool) (iv : option Z) : option bool := if emp
 Definition istop_values_gen : list string := [{"; ".join('"%s"' % x for x in stops)}].''')
 
 
+# ------------------------------------------------------------------------------------------------ representation strings
+REP_CLASSES = [  # (file, class, generated name, parameters of the generated function, {source expression: Coq pieces})
+    ('telingo/theory/body.py', 'Atom', 'rep_atom_gen', '(positive : bool) (name args : rtok)',
+     {"'' if positive else '-'": '[RL (if positive then "" else "-")]', 'name': '[name]', "','.join([str(a) for a in arguments])": '[args]'}),
+    ('telingo/theory/body.py', 'BooleanConstant', 'rep_constant_gen', '(value : bool)', {}),
+    ('telingo/theory/body.py', 'Negation', 'rep_negation_gen', '(arg : list rtok)', {'arg._rep': 'arg'}),
+    ('telingo/theory/body.py', 'BooleanFormula', 'rep_boolean_gen', '(operator : string) (lhs rhs : list rtok)', {'lhs._rep': 'lhs', 'rhs._rep': 'rhs', 'operator': '[RL operator]'}),
+    ('telingo/theory/body.py', 'Previous', 'rep_previous_gen', '(n : nat) (weak : bool) (arg : list rtok)', {'n': '[RN n]', "'<:' if weak else '<'": '[RL (if weak then "<:" else "<")]', 'arg._rep': 'arg'}),
+    ('telingo/theory/body.py', 'Initially', 'rep_initially_gen', '(arg : list rtok)', {'arg._rep': 'arg'}),
+    ('telingo/theory/body.py', 'Next', 'rep_next_gen', '(n : nat) (weak : bool) (arg : list rtok)', {'n': '[RN n]', "'>:' if weak else '>'": '[RL (if weak then ">:" else ">")]', 'arg._rep': 'arg'}),
+    ('telingo/theory/body.py', 'TelFormulaP', 'rep_telp_gen', '(op : string) (lhs : option (list rtok)) (rhs : list rtok)',
+     {"'' if lhs is None else lhs._rep": '(match lhs with None => [RL ""] | Some l => l end)', 'op': '[RL op]', 'rhs._rep': 'rhs'}),
+    ('telingo/theory/body.py', 'TelFormulaN', 'rep_teln_gen', '(op : string) (lhs : option (list rtok)) (rhs : list rtok)',
+     {"'' if lhs is None else lhs._rep": '(match lhs with None => [RL ""] | Some l => l end)', 'op': '[RL op]', 'rhs._rep': 'rhs'}),
+    ('telingo/theory/body.py', 'DiamondFormula', 'rep_diamond_gen', '(path rhs : list rtok)', {'path._rep': 'path', 'rhs._rep': 'rhs'}),
+    ('telingo/theory/body.py', 'BoxFormula', 'rep_box_gen', '(path rhs : list rtok)', {'path._rep': 'path', 'rhs._rep': 'rhs'}),
+    ('telingo/theory/path.py', 'SkipPath', 'rep_skip_gen', '', {}),
+    ('telingo/theory/path.py', 'ChoicePath', 'rep_choice_gen', '(lhs rhs : list rtok)', {'lhs._rep': 'lhs', 'rhs._rep': 'rhs'}),
+    ('telingo/theory/path.py', 'SequencePath', 'rep_sequence_gen', '(lhs rhs : list rtok)', {'lhs._rep': 'lhs', 'rhs._rep': 'rhs'}),
+    ('telingo/theory/path.py', 'CheckPath', 'rep_check_gen', '(arg : list rtok)', {'arg._rep': 'arg'}),
+    ('telingo/theory/path.py', 'KleeneStarPath', 'rep_star_gen', '(arg : list rtok)', {'arg._rep': 'arg'}),
+]
+
+
+def gen_reps(out):
+    """the unique representation string every formula / path class hands to its base class (the key of the formula table of Theory and of the per-step
+    data): the format string cut at its slots, every slot filled with what the source fills it with.  A literal piece is ONE token, so is a number, a
+    name, an argument list: the generated functions build the representation as a list of tokens (see Model/Reps.v for what that abstracts from)"""
+    trees = {}
+    out.append('(* ---- theory/body.py, theory/path.py: the representation strings (_rep) of the formula and path classes ---- *)')
+    for rel, cls, gname, params, slots in REP_CLASSES:
+        tree = trees.setdefault(rel, parse(rel))
+        init = find_fun(tree, '__init__', cls)
+        # the representation: the first argument after self of the call of the base class initialiser; a local `rep` is looked up
+        local = {ast.unparse(x.targets[0]): x.value for x in init.body if isinstance(x, ast.Assign) and len(x.targets) == 1}
+        calls = [x.value for x in init.body if isinstance(x, ast.Expr) and isinstance(x.value, ast.Call) and isinstance(x.value.func, ast.Attribute) and x.value.func.attr == '__init__']
+        if len(calls) != 1 or len(calls[0].args) < 2 or ast.unparse(calls[0].args[0]) != 'self':
+            raise Unsupported('%s.__init__: call of the base class initialiser' % cls)
+        e = calls[0].args[1]
+        if isinstance(e, ast.Name):
+            if e.id not in local:
+                raise Unsupported('%s.__init__: representation %s' % (cls, e.id))
+            e = local[e.id]
+
+        def pieces(e):
+            if isinstance(e, ast.Constant) and isinstance(e.value, str):
+                return '[RL %s]' % coq_str(e.value)
+            if isinstance(e, ast.IfExp) and ast.unparse(e.test) == 'value' and 'value' in params:
+                return '(if value then %s else %s)' % (pieces(e.body), pieces(e.orelse))
+            if isinstance(e, ast.Call) and isinstance(e.func, ast.Attribute) and e.func.attr == 'format' and isinstance(e.func.value, ast.Constant) and isinstance(e.func.value.value, str) and not e.keywords:
+                lits = e.func.value.value.split('{}')
+                if len(lits) != len(e.args) + 1:
+                    raise Unsupported('%s: format string %s' % (cls, ast.unparse(e)))
+                parts = ['[RL %s]' % coq_str(lits[0])] if lits[0] else []
+                for a, l in zip(e.args, lits[1:]):
+                    u = ast.unparse(a)
+                    if u in slots:
+                        parts.append(slots[u])
+                    elif isinstance(a, ast.Constant) and isinstance(a.value, str):
+                        parts.append('[RL %s]' % coq_str(a.value))
+                    else:
+                        raise Unsupported('%s: slot %s of the representation' % (cls, u))
+                    if l:
+                        parts.append('[RL %s]' % coq_str(l))
+                return '(' + ' ++ '.join(parts) + ')%list'
+            raise Unsupported('%s: representation %s' % (cls, ast.unparse(e)))
+        out.append('Definition %s %s : list rtok := %s.' % (gname, params, pieces(e)))
+
+
 # ------------------------------------------------------------------------------------------------ #program directives
 def gen_parts(out):
     """transformers/program.py: ProgramTransformer.visit_Program - straight-line code over prg.name / self.__final / self.__part with one-armed
@@ -1665,6 +1734,7 @@ GROUPS = {
     'app': ('FromApp.v', [gen_app], ['GenPrelude']),
     'loc': ('FromLoc.v', [gen_loc], ['GenPrelude']),
     'parts': ('FromParts.v', [gen_parts], ['GenPrelude']),
+    'reps': ('FromReps.v', [gen_reps], ['GenPrelude']),
     'tables': ('FromTables.v', [gen_tables], ['GenPrelude']),
     'theory': ('FromTheory.v', [gen_theory], ['GenPrelude', 'TheoryPrelude']),
     'dynamic': ('FromDynamic.v', [gen_dynamic], ['GenPrelude', 'TheoryPrelude', 'DynPrelude']),
